@@ -4,7 +4,10 @@ p="$1"; id="$2"; tier="${3:-quick}"
 cd /repo || exit 2
 git apply --check "$p" || { echo "patch does not apply"; exit 2; }
 git apply "$p"
+# the evidence file must describe the unchanged tree: keep the current one aside and put it back afterwards
+ev=/verif/evidence/$id.json; keep=$(mktemp); [ -f "$ev" ] && cp "$ev" "$keep"
 cd /verif && bin/check "$id" "$tier" > /verif/out/try_seed.log 2>&1; rc=$?
 grep -E "^VIOLATION|signature|^\[C|MACH|KNOWN" /verif/out/try_seed.log | head -${LINES_MAX:-14}
 cd /repo && git checkout -- . && /venv/bin/python setup.py build_ext -j16 --inplace >/dev/null 2>&1
+[ -s "$keep" ] && cp "$keep" "$ev"; rm -f "$keep"
 echo "exit=$rc"
